@@ -35,6 +35,8 @@ type Case struct {
 	// Marshal: settings that belong to marshalling and to the JSON object form, none of which is an input of text parsing or of
 	// New/Bytes: bit 0 DisableMarshalTextUnit, bit 1 DisableMarshalJSONStringForm, bit 2 DisableMarshalJSONObjectForm, bit 3 MaxObjectKeys = 1.
 	Marshal int `json:"marshal_settings,omitempty"`
+	// Limit: size.MaxInputLength for a text case: 0 leaves the setting alone, -1 disables the limit, n > 0 sets it (serial phases only).
+	Limit int `json:"max_input_length,omitempty"`
 }
 
 func configureMarshal(m int) func() {
@@ -260,6 +262,14 @@ func typedParse(err error) bool {
 
 func judgeText(c Case, w *vkit.W) {
 	text := string(c.Text)
+	if c.Limit != 0 {
+		oldLimit := size.MaxInputLength
+		size.MaxInputLength = c.Limit
+		if c.Limit < 0 {
+			size.MaxInputLength = 0
+		}
+		defer func() { size.MaxInputLength = oldLimit }()
+	}
 	v := ref.ParseSizeText(text)
 	unitOff := c.Rule&int(size.RuleDisableUnit) != 0
 	tooLong := size.MaxInputLength != 0 && len(text) > size.MaxInputLength
@@ -640,6 +650,33 @@ func TestCheck(t *testing.T) {
 								judge(Case{Kind: "text", Text: vkit.B(text), Rule: rule}, w)
 								w.EvalRandom(vkit.Hash64("R", text, strconv.Itoa(rule)), true)
 							}
+						}
+					}
+				}
+			}
+		})
+	})
+
+	// Phase L: numbers far longer than the default input limit, with the limit disabled or raised: zero padding of 100..5000
+	// digits in front of small, boundary and overflowing numbers, and digit runs that long which overflow. number x unit is
+	// exact or refused whatever the length of the text.
+	r.Phase("L: numbers with 100..5000 padding zeros or digits (around 127/128/129 and 255/256/257 too) x boundary numbers x units, input limit disabled and raised", func() {
+		r.Serial(func(w *vkit.W) {
+			for _, z := range []int{100, 120, 126, 127, 128, 129, 130, 200, 255, 256, 257, 1000, 5000} {
+				zeros := strings.Repeat("0", z)
+				var texts []string
+				for _, num := range []string{"", "0", "7", "42", "1024", "18014398509481984", "18446744073709551615", "18446744073709551616"} {
+					for _, unit := range []string{"", "B", " kB", "KiB", "_MiB", " EiB", " EB"} {
+						texts = append(texts, zeros+num+unit, " "+zeros+num+unit+" ")
+					}
+				}
+				grouped := strings.Repeat("000_", z/4)
+				texts = append(texts, grouped+"42 kB", grouped+"7", "1"+zeros, "1"+zeros+" B", strings.Repeat("9", z)+"KiB", zeros+"."+zeros+"1", zeros+"1."+zeros, "-"+zeros+"1", "-"+zeros)
+				for _, text := range texts {
+					for _, lim := range []int{-1, len(text) + 64, len(text)} {
+						for _, rule := range []int{0, 1} {
+							judge(Case{Kind: "text", Text: vkit.B(text), Rule: rule, Limit: lim}, w)
+							w.EvalRandom(vkit.Hash64("L", text, strconv.Itoa(lim), strconv.Itoa(rule)), true)
 						}
 					}
 				}
